@@ -35,6 +35,88 @@ def chain_guards(fx):
     return out
 
 
+def entry_guards(K, body, h):
+    """(atom, value) pairs that hold on EVERY way of reaching loop h from the function's entry (through the
+    enclosing loops' bodies, if any)"""
+    loops = body.loops()
+    enclosing = [hh for hh, blks in loops.items() if hh != h and h in blks]
+    outer = min(enclosing, key=lambda hh: len(loops[hh])) if enclosing else None
+    tag = "fn" if outer is None else "L%d" % outer
+    sets = []
+    for t, paths in K.segments(body):
+        if t != tag:
+            continue
+        for p in paths:
+            idx = [i for i, e in enumerate(p.events) if e.kind == "loop" and e.a == h]
+            if not idx:
+                continue
+            sets.append({(e.a, e.b) for e in p.events[:idx[0]] if e.kind == "guard" and isinstance(e.a, tuple)})
+    must = set.intersection(*sets) if sets else set()
+    if outer is not None:
+        must |= entry_guards(K, body, outer)
+    return must
+
+
+def batch_push_rows(ctx, K):
+    """for every push into the local batch of release_action_mappings: the named conditions known to hold for the
+    pushed key x and the mapping M whose output list it is drawn from (whatever the loops around it look like)
+    -> (rows, problems)"""
+    b = ctx.body(RAM)
+    rows, probs = [], []
+    for tag, paths in K.segments(b):
+        for p in paths:
+            fx = K._one(b, p, tag, None)
+            for e in fx.effects:
+                if e.kind != "ADD" or not isinstance(e.lst, tuple):
+                    continue
+                x = mir.strip(e.key)
+                if not (isinstance(x, tuple) and x[0] == "elem" and isinstance(x[1], tuple) and x[1][0] == "iter"
+                        and isinstance(x[1][1], tuple) and x[1][1][0] == "field" and x[1][1][2] == "to"):
+                    probs.append("a key that is not an element of some mapping's output list is collected: %s" % show(x)[:60])
+                    continue
+                M = mir.strip(x[1][1][1])
+                guards = set(fx.guards_before(e))
+                if tag.startswith("L"):
+                    guards |= entry_guards(K, b, int(tag[1:]))
+                conds = set()
+                # where does M come from?
+                if isinstance(M, tuple) and M[0] == "elem" and isinstance(M[1], tuple) and M[1][0] == "iter" and list_of(M[1][1]) == "AM":
+                    conds.add("M-in-active_mappings")
+                elif (isinstance(M, tuple) and M[0] == "field" and isinstance(M[1], tuple) and M[1][0] == "variant" and M[1][2] == "Some"
+                      and isinstance(M[1][1], tuple) and M[1][1][0] == "call" and method_name(M[1][1][1]) in ("find", "rfind") and len(M[1][1][2]) == 2):
+                    it, clos = M[1][1][2]
+                    if isinstance(it, tuple) and it[0] == "iter" and list_of(it[1]) == "AM" and isinstance(clos, tuple) and clos[0] == "closure":
+                        conds.add("M-in-active_mappings")
+                        # what the search guarantees about the mapping it found
+                        try:
+                            cps, cb = mir.walk_closure(ctx.body, clos, param_terms=[M])
+                            common = None
+                            for q in cps:
+                                if q.outcome[0] != "return":
+                                    continue
+                                r = q.outcome[1]
+                                gs = {(ev.a, ev.b) for ev in q.events if ev.kind == "guard" and isinstance(ev.a, tuple)}
+                                v = mir.const_int(r)
+                                if v == 0:
+                                    continue
+                                if v is None:
+                                    neg = isinstance(r, tuple) and r[0] == "not"
+                                    gs.add((r[1] if neg else r, not neg))
+                                common = gs if common is None else (common & gs)
+                            guards |= (common or set())
+                        except Exception:
+                            pass
+                from . import c04
+                for a, v in guards:
+                    nm = c04._cond_name(a, v, M)
+                    if nm:
+                        conds.add(nm)
+                    if isinstance(a, tuple) and a[0] == "in" and mir.strip(a[1]) == x and list_of(a[2]) == "MO":
+                        conds.add("in_MO" if v else "!in_MO")
+                rows.append(frozenset(conds))
+    return rows, probs
+
+
 def run(ctx):
     ck = ctx.check
     K = kt.KT(ctx)
@@ -80,8 +162,9 @@ def run(ctx):
             "c:no-repeat-sweep(non-modifier keys)", "d:absorbed-key", "e:the-released-key-itself"}
     ck.ob("C05-R1", "-", "all-six-classes-present(floor)", set(k for k in classes if k) == want, detail=str(sorted(k for k in classes if k)))
     # (b) premises: the batch only holds keys found in mapped_output_keys
-    rows, probs = c04.batch_conditions(ctx, K)
-    ck.ob("C05-R1", RAM, "b:batch-keys-are-drawn-from-mapped_output_keys", not probs and bool(rows) and all("in_MO" in r for r in rows), detail=str([sorted(r) for r in set(rows)]))
+    rows, probs = batch_push_rows(ctx, K)
+    ck.ob("C05-R1", RAM, "b:batch-keys-are-drawn-from-mapped_output_keys", not probs and bool(rows) and all("in_MO" in r for r in rows),
+          detail=str(probs[:2] or [sorted(r) for r in set(rows)]))
     # (d) premises: to_remove is filled only from mapped_absorbed_keys
     rb = ctx.body(RAK)
     srcs = set()
@@ -129,8 +212,8 @@ def run(ctx):
         if cs:
             act = [v for a, v in fx.guards_before(cs[0]) if isinstance(a, tuple) and a[0] == "call" and a[1] == MOD + "is_action_key" and mir.strip(a[2][0]) == k]
             ck.ob("C05-R3", NP, "b:only-for-a-non-modifier-pass-through-press", act == [True])
-    want_rows = frozenset({"action_mapping", "len>1", "any_modifier", "in_MO", "!in_batch"})
-    ck.ob("C05-R3", RAM, "b:lifts-only-outputs-of-key-producing-mappings-that-carry-modifiers", bool(rows) and all(r == want_rows for r in rows),
+    want_rows = frozenset({"M-in-active_mappings", "action_mapping", "len>1", "any_modifier", "in_MO"})
+    ck.ob("C05-R3", RAM, "b:lifts-only-outputs-of-key-producing-mappings-that-carry-modifiers", bool(rows) and not probs and all(r >= want_rows for r in rows),
           detail=str([sorted(r) for r in set(rows)]))
 
     # ---------------- R2 release scope
@@ -151,7 +234,7 @@ def run(ctx):
     # the still-used scan must see EVERY remaining mapping: skipping index i is only right while the mapping being
     # removed is still at index i; once it has been taken out the scan has to look at all of them
     ck.ob("C05-R2", MOD + "remove_mapping", "still-used-scan-sees-every-remaining-mapping", R.covers("used") in ("exact", "superset"),
-          detail="removal %s the sweep, scan %s index i" % (R.am_removal, "skips" if R.excl.get("used") else "does not skip"))
+          detail="removal %s the sweep, scan %s" % (R.am_removal, R.scan_text("used")))
     nr = ctx.body(NR)
     swept = 0
     for h in sorted(nr.loops()):
